@@ -576,6 +576,7 @@ SLOTIDX = H("smt::slot_index", required=False, kind="smt", smt="slotidx", replay
             cost=20, timeout=600, mem_gb=16)
 PROPS["C17"]["harnesses"] += [SLOTIDX]
 PROPS["C05"]["harnesses"] += [SLOTIDX]
+PROPS["C07"]["harnesses"] += [SLOTIDX]
 
 # storage buffers beyond 65535 bytes: the region where the reassembly context's 16-bit byte
 # counter and the 16-bit total-length comparison could wrap (defect D16)
